@@ -109,6 +109,12 @@ def standardizeAddress (input : Bytes) : Except AddrErr Address :=
           else scheme
         .ok { original := input, scheme := scheme, host := host, port := port, path := path }
 
+/-- what Address.Normalize does to an IP-literal host before lower-casing: net.ParseIP(host).String() -/
+def canonHost (h : Bytes) : Bytes :=
+  match parseIP h with
+  | some ip => ipString ip
+  | none => h
+
 /-- Address.Normalize (CaseSensitivePath = false, its default) -/
 def Address.normalize (a : Address) : Address :=
   let host := match parseIP a.host with
